@@ -23,8 +23,7 @@ META = {
                   "the same wrong text) is not a disagreement of the routes: it is tallied (extra.off_specification_but_routes_agree) "
                   "and left to C01/C02; the specification then tells WHICH route is wrong when they differ.",
     "level_note": "Trusted: AldorSem.tla, renderer, gcc, shipped libraries. The interpreter's call-stack listing after a halt is treated as "
-                  "a diagnostic (not program output); unit, line and quoted text of a failed assertion are not compared. Uncaught exceptions "
-                  "with payload are not in the family yet.",
+                  "a diagnostic (not program output); unit, line and quoted text of a failed assertion are not compared.",
 }
 
 
@@ -43,7 +42,7 @@ def run(chk, tier):
     b = vlib.vbuild()
     wd = vlib.scratch("c03")
     levels = [0, 2, 9] if tier == "quick" else [0, 1, 2, 3, 5, 9]
-    n = 40 if tier == "quick" else 700
+    n = 30 if tier == "quick" else 700
     routes = []
     for q in levels:
         routes += [("interp-Q%d" % q, "interp", q, ()), ("ao-interp-Q%d" % q, "ao", q, ()), ("c-Q%d" % q, "c", q, ())]
@@ -80,7 +79,7 @@ def run(chk, tier):
         k += 1
     # separate compilation: the functions that throw are compiled as a library unit (at -Q0), the handlers stay in the client;
     # exceptions then cross a unit boundary on both routes
-    nx = 16 if tier == "quick" else 300
+    nx = 12 if tier == "quick" else 300
     xprogs = []
     for i in range(nx):
         g = progen.ProgGen(((chk.seed + 11) % 1000003) * 100003 + i, emph=("try",))
@@ -96,9 +95,23 @@ def run(chk, tier):
     chk.extra["off_specification_but_routes_agree"] = agree
     for s_, c in famx.status_count.items():
         per["split:" + s_] = c
+    # exceptions that carry a value, caught (the handler reads the value) and uncaught ("Unhandled Exception: ExP0(??)")
+    npx = 10 if tier == "quick" else 300
+    pprogs = []
+    for i in range(npx):
+        g = progen.ProgGen(((chk.seed + 17) % 1000003) * 100003 + i, emph=("try", "call"))
+        g.feat |= {"try", "fun"}
+        g.feat -= {"gen"}
+        g.enable_payload()
+        pprogs.append(g.program("pv%d" % i))
+    famp = progcheck.Family(chk, pprogs, "payload-exceptions", workers=vlib.NCPU, timeout=1500)
+    proutes = [r_ for r_ in routes if r_[2] in ((0, 2) if tier == "quick" else levels)]
+    merge_agree(agree, progcheck.replay(chk, b, famp, proutes, wd, agree_group=level_of))
+    for s_, c in famp.status_count.items():
+        per["payload:" + s_] = c
     # failed assertions: `assert` is in the family as an opt-in feature.  -Qdel-assert (documented, on from -Q2) deletes
     # assertions, so the specification is evaluated twice (AldorSem's DelAssert) and each level is compared with its own
-    na = 16 if tier == "quick" else 300
+    na = 12 if tier == "quick" else 300
     aprogs = []
     for i in range(na):
         g = progen.ProgGen(((chk.seed + 13) % 1000003) * 100003 + i)
@@ -121,7 +134,7 @@ def run(chk, tier):
     # always: the programs about floats, exceptions, generators and abnormal ends; plus a seeded sample of the rest
     always = [n for n in allnames if n.startswith(("float", "exn", "try", "mandel", "bigmand", "exit", "halt", "gener", "gfGener",
                                                    "df", "fix", "ratio", "limits", "numeral", "lit"))]
-    sample = allnames if tier == "thorough" else sorted(set(always + rnd.sample(allnames, 25)))
+    sample = allnames if tier == "thorough" else sorted(set(always + rnd.sample(allnames, 12)))
     clevels = [0, 2] if tier == "quick" else levels
     cfgs = [("interp-Q0", "interp", ("-Q0",))]
     for q in clevels:
